@@ -14,12 +14,16 @@ PROP = "C10"
 
 REJECT_TEXTS = ["1.5", "[1.5]", '{"a":0.25}', "1e-2", "[12345678901234567890.5]", "2.5e0", "-1.5",
                 "1E400", "-1E400", "0.1", '{"k":[1,2,{"z":3.000001}]}', "123456789.123456789",
-                "5e-1", "[[[[0.5]]]]"]
+                "5e-1", "[[[[0.5]]]]",
+                # fractions whose shortest rendering has an exponent and no decimal point
+                "1e-7", "5e-324", "[7e-10]", "3e-300", "-2e-6", '{"n":1e-5}', "9e-16"]
 # numbers that are integers mathematically but floats in the parser's data model, or beyond
 # 64 bits: either rejected, or rendered *exactly* — never rounded or truncated
 EXACT_OR_REJECT = ["18446744073709551616", "-9223372036854775809", "1" + "0" * 30,
                    "36893488147419103232", "-18446744073709551615", "1e2", "1.0", "-0", "0.0",
-                   "1E2", "100e-2", "9007199254740993.0", "1e19", "12345678901234567890123"]
+                   "1E2", "100e-2", "9007199254740993.0", "1e19", "12345678901234567890123",
+                   # whole numbers whose shortest float rendering is a single digit and an exponent
+                   "1e16", "1e20", "7e22", "-3e300", "100000000000000000000", "5e17", "2e19", "4E+18"]
 
 
 def exact_int_text(t):
